@@ -14,6 +14,7 @@ import (
 // every query; body is a sequence of definitions/assertions in program order,
 // an obligation uses the prefix of body that existed when it was raised.
 type Ctx struct {
+	sumlensAx bool
 	countersUsed   map[string]bool
 	countersBumped map[string]bool
 	decls    []string
